@@ -1,9 +1,10 @@
 (** C08 — wire codecs: total, consistent with length predictions, round-trip.
     Only statements live here; each is closed by [exact] of a lemma proved elsewhere. *)
-From Coq Require Import List ZArith Bool.
+From Coq Require Import List ZArith Bool Lia.
 From V Require Import Gen.Params Lib.Hex Wire.Varint Wire.VarintProofs.
 From V Require Import Wire.FramesBase Wire.FramesBaseProofs Wire.FramesCtl Wire.FramesCtlProofs Wire.FramesStream
-  Wire.FramesStreamProofs Wire.FramesAck Wire.FramesAckProofs Wire.Frames Wire.FramesProofs.
+  Wire.FramesStreamProofs Wire.FramesAck Wire.FramesAckProofs Wire.Frames Wire.FramesProofs
+  Wire.FramesConsumedProofs Wire.FramesReencodeProofs.
 Import ListNotations.
 Open Scope Z_scope.
 
@@ -234,5 +235,60 @@ Theorem C08_allow_list_0rtt_handshake_done_refuted :
   exists lvl t, rfc9000_allowed lvl t = false /\ type_allowed lvl t = true /\ type_valid (Cfg false false false 3) t = true.
 Proof. exact allow_list_0rtt_handshake_done_refuted. Qed.
 Print Assumptions C08_allow_list_0rtt_handshake_done_refuted.
+
+(** Claim (a) on the model: a successful parse returns a genuine suffix of its input, reports
+    exactly the number of bytes in front of it, consumes at least one byte and never more than
+    the input has. *)
+Theorem C08_frame_consumed : forall c lvl b f n rest,
+  parse_next c lvl b = Ok (f, n, rest) ->
+  suffix_of rest b /\ n = zlen b - zlen rest /\ 0 < n <= zlen b.
+Proof. exact parse_next_consumed. Qed.
+Print Assumptions C08_frame_consumed.
+
+(** Whatever the parser accepts from a byte string (at one of the four levels) is a well-formed
+    value — every range rule of wf_frame holds for it — and the type Append will write for it is
+    known to the parser and allowed at that level. *)
+Theorem C08_frame_parsed_wf : forall c lvl b f n rest,
+  bytes b -> zlen b <= maxVarInt8 -> 1 <= lvl <= 4 ->
+  parse_next c lvl b = Ok (f, n, rest) ->
+  (forall enc, append_frame f = Some enc -> wf_frame f) /\
+  type_valid c (frame_type f) = true /\ type_allowed lvl (frame_type f) = true.
+Proof. exact parse_next_wf. Qed.
+Print Assumptions C08_frame_parsed_wf.
+
+(** Claim (c): parse -> append -> parse.  The re-encoding of anything that parsed is accepted
+    again, consumed completely, and yields the normalised value ... *)
+Theorem C08_frame_reencode : forall c lvl b f n rest enc,
+  bytes b -> zlen b <= maxVarInt8 -> 1 <= lvl <= 4 ->
+  parse_next c lvl b = Ok (f, n, rest) -> append_frame f = Some enc ->
+  parse_next c lvl enc = Ok (norm c lvl f, zlen enc, []).
+Proof. exact parse_reencode. Qed.
+Print Assumptions C08_frame_reencode.
+
+(** ... which is the value itself for every kind but ACK / ACK_FREQUENCY (whose delays are quantised). *)
+Theorem C08_frame_reencode_fixpoint : forall c lvl b f n rest enc,
+  bytes b -> zlen b <= maxVarInt8 -> 1 <= lvl <= 4 ->
+  parse_next c lvl b = Ok (f, n, rest) -> append_frame f = Some enc ->
+  (match f with FAck _ _ _ _ _ | FAckFrequency _ _ _ _ => False | _ => True end) ->
+  parse_next c lvl enc = Ok (f, zlen enc, []).
+Proof. exact parse_reencode_fixpoint. Qed.
+Print Assumptions C08_frame_reencode_fixpoint.
+
+Example C08_frame_reencode_nonvacuous :
+  bytes [0; 0; 14; 4; 67; 232; 2; 7; 7; 1] /\
+  parse_next (Cfg false false false 3) 4 [0; 0; 14; 4; 67; 232; 2; 7; 7; 1] = Ok (FStream 4 1000 [7; 7] false true, 9, [1]) /\
+  append_frame (FStream 4 1000 [7; 7] false true) = Some [14; 4; 67; 232; 2; 7; 7].
+Proof. split; [repeat constructor; unfold is_byte; lia | split; reflexivity]. Qed.
+Print Assumptions C08_frame_reencode_nonvacuous.
+
+(** AckFrame.Truncate(maxSize): what is left is a non-empty prefix of at most 64 ranges whose
+    encoding fits into maxSize, provided the frame with the first range alone fits. *)
+Theorem C08_ack_truncate : forall ranges delay e0 e1 ce maxSize,
+  wf_ranges ranges ->
+  length_ack (firstn 1 ranges) delay e0 e1 ce <= maxSize ->
+  let t := truncate_ack ranges delay e0 e1 ce maxSize in
+  t <> [] /\ (exists rest, ranges = t ++ rest) /\ (length t <= 64)%nat /\ length_ack t delay e0 e1 ce <= maxSize.
+Proof. exact truncate_ack_fits. Qed.
+Print Assumptions C08_ack_truncate.
 
 (* ==== end frames ==== *)
